@@ -313,6 +313,17 @@ def needs_sep(a, b):
     return False
 
 
+def tight_layout(lexemes, kinds):
+    """the token sequence written with a single blank only where two lexemes would otherwise fuse: every layout that
+    `layout` produces is this text with white space added between tokens (Cpf.Lemmas.LexLayoutQ.Relayout)"""
+    out = []
+    for i, lx in enumerate(lexemes):
+        out.append(lx)
+        if i + 1 < len(lexemes) and kinds[i] != "' in '" and kinds[i + 1] != "' in '" and needs_sep(lx, lexemes[i + 1]):
+            out.append(" ")
+    return "".join(out)
+
+
 def layout(lexemes, kinds, rng, aggressive=True):
     """Re-lay-out a token sequence with random white space at every token boundary (outside string
     literals). The ' in ' token keeps exactly its own blanks (see known finding C14:in-whitespace)."""
